@@ -170,19 +170,25 @@ CLAIMS["C10"] = _b(
     "paths agree is decided by the correspondence runs: partial there.", "DESIGN.md section 6 C10")
 CLAIMS["C11"] = _b(
     "Machine-checked proofs (Lean 4) over a model in which every expect/unreachable!/debug_assert! of the broker is an explicit Panic "
-    "result: wrong-direction and too-new kinds only close the sender (wrong_direction_closes_sender, C12 gated_message_fails); for ALL "
-    "histories the operations handlers apply to stored channels and listeners cannot reach the 8 + 2 panic sites of channel.rs and "
-    "bus_listener.rs (channel_ops_do_not_panic, listener_enumeration_does_not_panic); unknown or foreign cookies/serials are ignored "
-    "without touching other state (unknown_*, foreign_listener_untouched); the three debug_assert!s of ConnectionState::remove_call hold "
-    "in every turn of Broker::run from every reachable state (remove_call_asserts_hold, by the cross-reference invariant of the call "
-    "tables proved for C02; fewer than 2^32 pending calls); in every reachable state the expect(\"inconsistent state\") lookups of "
-    "call_function_reply, call_function and remove_service (incl. its loop over the calls the service holds) cannot fail "
-    "(call_reply_lookups_hold, call_function_lookups_hold, remove_service_lookups_hold; registry and callee-side invariants), and for "
-    "ALL histories claim_channel_end finds the connection holding the other end (claim_lookup_holds; ownership invariant). The "
-    "remaining expect sites (subscription and introspection handlers) are "
-    "cross-reference lookups whose unreachability is not proved; they are covered by the 'abuse' profile of the correspondence runs "
-    "(panics caught around every poll, the model names the site, liveness probe of every surviving connection): partial.",
-    "DESIGN.md section 6 C11")
+    "result. From every reachable state (fewer than 2^32 pending calls), one whole turn of Broker::run on any event - any message of "
+    "any connection incl. wrong direction, stale or foreign cookies and serials, duplicates, out-of-state requests; connects; the four "
+    "kinds of disconnect; shutdown - with every step of the deferred work and the teardown of connections: if the turn ends in a "
+    "panic, that panic is raised by the introspection code (the handler of one of the three introspection requests, or "
+    "remove_introspection_conn), or the id of a new connection was already in use, or the model's budget ran out "
+    "(turn_panics_only_in_introspection; by the registry invariant of C03, the caller- and callee-side call invariants of C02, the "
+    "ownership and channel invariants of C05, the listener invariant of C10 and duplicate-freeness of the per-connection sets, all of "
+    "which hold at every intermediate state of a turn); the work loop stops after finitely many items of deferred work from every "
+    "state and running out of budget is never what ends it: does not hang (work_loop_terminates, "
+    "work_loop_outcome_is_independent_of_the_budget); of the 35 lookup sites of the model only the four of the introspection code "
+    "are reachable (inconsistent_state_only_in_introspection); the handler of the 31 request kinds that are not about introspection "
+    "returns no panic of any kind (request_does_not_panic); remove_service / remove_object cannot fail "
+    "(remove_service_and_object_cannot_fail); wrong-direction and too-new kinds only close the sender "
+    "(wrong_direction_closes_sender, C12 gated_message_fails); unknown or foreign cookies/serials are ignored without touching other "
+    "state (unknown_*, foreign_listener_untouched). Partial: the four lookups and four debug_assert!s of the introspection code and "
+    "that the concrete budget of the model's step suffices are not theorems; that a connection id is new is an assumption about the "
+    "acceptor. These, and 'a well-behaved connection is still served correctly afterwards', are covered by the 'abuse' profile of the "
+    "correspondence runs (panics caught around every poll, the model names the site, liveness probe of every surviving connection).",
+    "DESIGN.md section 6 C11 and 10.2")
 CLAIMS["C12"] = _b(
     "Machine-checked proofs (Lean 4): the handshake decision for all requested versions (handshake_spec, handshake_incompatible; accept "
     "range regenerated from acceptor.rs and its control-flow shape checked by the translator); every message kind newer than the "
